@@ -32,7 +32,7 @@ Fixpoint lines (s : str) : list str :=
         else keep
   end.
 
-(** [trimmed.starts_with("--")] *)
+(** [trimmed.starts_with(DASHDASH)], DASHDASH = the two-character string of two hyphens *)
 Definition starts_dashes (s : str) : bool :=
   match s with 45 :: 45 :: _ => true | _ => false end.
 
@@ -54,12 +54,12 @@ Definition push (st : sst) (ch : Z) : sst :=
 (** [current_statement.trim_end_matches(';')] *)
 Definition trim_end_semis (s : str) : str := trim_end_by (Z.eqb 59) s.
 
-(** the body of [for ch in line.chars()]:
+(** the body of [for ch in line.chars()] (DQUOTE stands for the double-quote character literal):
 <<
     if escape_next { current_statement.push(ch); escape_next = false; continue; }
     match ch {
         '\\' if in_string && string_char == '\'' => { push; escape_next = true; }
-        '\'' | '"' if !in_string => { in_string = true; string_char = ch; push; }
+        '\'' | DQUOTE if !in_string => { in_string = true; string_char = ch; push; }
         c if in_string && c == string_char => { in_string = false; push; }
         ';' if !in_string => { push;
              if !current_statement.trim().is_empty() {
@@ -88,7 +88,7 @@ Definition run_chars (st : sst) (l : str) : sst := fold_left step l st.
 (** the body of [for line in content.lines()]:
 <<
     let trimmed = line.trim();
-    if trimmed.starts_with("--") || trimmed.is_empty() { continue; }
+    if trimmed.starts_with(DASHDASH) || trimmed.is_empty() { continue; }
     for ch in line.chars() { .. }
     if !in_string { current_statement.push(' '); }
 >> *)
